@@ -185,7 +185,7 @@ def run_coq_cases(mod, cases, results, work):
         part = idxs[k:k + CHUNK]
         path = f"{work}/cases_{k // CHUNK}.v"
         with open(path, "w") as f:
-            f.write(f"From NDV Require Import Prelude PyIndex {mod.CORR}.\nOpen Scope Z_scope.\n")
+            f.write(f"From NDV Require Import Prelude PyIndex {' '.join(getattr(mod, 'IMPORTS', []))} {mod.CORR}.\nOpen Scope Z_scope.\n")
             f.write(getattr(mod, "COQ_PREAMBLE", ""))
             f.write("Definition cases : list case := [\n")
             f.write(";\n".join(mod.coq_case(cases[i], results[i]) for i in part))
@@ -342,6 +342,10 @@ def main(argv):
         elif in_dom and not agree:
             corr_broken.append(i)
 
+    json.dump([{"case": cases[i].get("show", cases[i]), "out": results[i].get("out")} for i in corr_broken[:300]],
+              open(f"{work}/disagree.json", "w"), default=str)
+    json.dump([{"case": cases[i].get("show", cases[i]), "res": results[i]} for i in (oracle_viol + crashes)[:300]],
+              open(f"{work}/oracle_fail.json", "w"), default=str)
     status, replay = "ok", None
     if oracle_viol or crashes:
         i = (oracle_viol + crashes)[0]
